@@ -22,6 +22,7 @@ import (
 	yaml2 "gopkg.in/yaml.v2"
 
 	"github.com/Comcast/sheens/core"
+	"github.com/Comcast/sheens/match"
 
 	"verif/ref"
 	"verif/sim"
@@ -122,6 +123,40 @@ func runC07Process(c *sim.Ctx, t *testing.T) {
 					shape += fmt.Sprintf("%d%d%d%s", bi, mi, ci, r.Kind[:1])
 				}
 			}
+		}
+	}
+	// Host values: bindings and messages a native action or a host hands over need not be
+	// decoded JSON - typed maps, typed slices, integers.  What they mean to the matcher is
+	// not stated anywhere; that nothing crashes is.
+	hostBs := func() match.Bindings {
+		return match.Bindings{
+			"n":  []interface{}{match.Bindings{"p": 1.0}, []string{"x"}, []int{1}, 2},
+			"s":  match.Bindings{"p": []string{"x", "y"}},
+			"f":  []string{"x"},
+			"?v": []interface{}{map[string]string{"p": "x"}},
+			"k!": int64(7),
+		}
+	}
+	hostMsgs := []interface{}{nil,
+		map[string]interface{}{"a": []interface{}{[]string{"x"}, match.Bindings{"p": 1.0}}, "b": []int{1, 2}, "n": []interface{}{1, map[string]int{"p": 1}}},
+		map[string]interface{}{"a": match.Bindings{"p": "x"}, "s": []string{"x"}, "f": struct{ X int }{1}}}
+	for _, node := range nodes {
+		for mi, msg := range hostMsgs {
+			desc := fmt.Sprintf("node %q (%s), host-typed bindings, host-typed message %d", node, nodeDesc(gs, node), mi)
+			calls++
+			if c.Guard("Step at "+desc, func() { spec.Step(ctx, &core.State{NodeName: node, Bs: hostBs()}, msg, nil, nil) }) {
+				c.Logf("spec: %s", specJSON(gs))
+				return
+			}
+			var pend []interface{}
+			if msg != nil {
+				pend = []interface{}{msg}
+			}
+			if c.Guard("Walk at "+desc, func() { spec.Walk(ctx, &core.State{NodeName: node, Bs: hostBs()}, pend, &core.Control{Limit: 6}, nil) }) {
+				c.Logf("spec: %s", specJSON(gs))
+				return
+			}
+			c.Count("calls_with_host_typed_values")
 		}
 	}
 	c.Add("calls", 2*calls)
